@@ -258,10 +258,28 @@ pub fn demote_default_outside_unwrap(ps: &mut [Piece], inside_unwrap: bool) {
     }
 }
 
-/// Force every element to "not ready" in one of the possible ways.
+/// Lines between the tags of an element that has only text children (None: has child elements).
+pub fn text_lines_between(e: &Elem) -> Option<usize> {
+    let mut n = 0;
+    for c in &e.children {
+        match c {
+            Piece::Text(t) => n += t.matches('\n').count(),
+            Piece::Elem(_) => return None,
+        }
+    }
+    Some(n.saturating_sub(1))
+}
+
+/// Force every element to "not ready" in one of the possible ways. Unwrap-blocks that cannot be
+/// unwrapped (fewer than two lines between the tags) keep a satisfied condition: they are one of
+/// the "nothing is ready" classes of C04.
 pub fn make_nothing_ready(ps: &mut [Piece], r: &mut Rng) {
     for p in ps.iter_mut() {
         if let Piece::Elem(e) = p {
+            let short_unwrap = e.unwrap && matches!(text_lines_between(e), Some(k) if k < 2);
+            if short_unwrap {
+                continue;
+            }
             if e.level <= STEP && !e.skip && e.kind != Kind::Unreg {
                 match r.below(3) {
                     0 => e.level = STEP + 1 + r.below((5 - STEP) as usize) as u8,
@@ -468,7 +486,13 @@ fn unwrap_elem(p: &UnwrapParams, r: &mut Rng, depth: usize, tag_indent: usize, l
         }
     };
     if p.k == 1 {
-        ch.push(text(format!("\n{ind}only();")));
+        // the single line between the tags: code, empty, whitespace-only or multi-byte
+        ch.push(text(match p.wrapper {
+            0 => format!("\n{ind}only();"),
+            1 => "\n".to_string(),
+            2 => format!("\n{ind} "),
+            _ => format!("\n{ind}ひとつ();"),
+        }));
     } else if p.k >= 2 {
         ch.push(text(format!("\n{}", wrapper(0, r))));
         let first_indent = match p.first_rel {
